@@ -57,6 +57,11 @@ fn cfgs() -> Vec<PairCfg> {
     c.client.name = "plain".into();
     v.push(c);
     // window-limited sender with a lot queued
+    // the client changes its address twice during the transfer (two path validations, the peers
+    // move on to fresh connection IDs and reset tokens each time)
+    let mut c = cfg_by_name("default");
+    c.client.name = "migrate2".into();
+    v.push(c);
     let mut c = cfg_by_name("default");
     c.client.name = "cwnd3".into();
     c.client.controller = Ctl::Fixed(3 * 1200);
@@ -148,7 +153,17 @@ fn run_case(base: Instant, c: &Case, dump: bool) -> Out {
         let mut amp_exempt = false;
         let mut last_rx: [Duration; 2] = [Duration::ZERO; 2];
         let horizon = Duration::from_secs(40);
+        let mut rebinds_done = 0;
         loop {
+            if c.cfg == "migrate2" {
+                for (k, (st, a)) in [(16u64, 9usize), (34, 10)].iter().enumerate() {
+                    if rebinds_done == k && p.w.steps >= *st {
+                        rebinds_done += 1;
+                        apply_op(&mut p, &Op::Rebind(CLIENT, crate::sim::addr(*a)));
+                        apply_op(&mut p, &Op::LocalAddrChanged(CLIENT));
+                    }
+                }
+            }
             let server_needed = matches!(c.kind, Kind::ServerClose | Kind::BothClose);
             let applicable_now = !server_needed || p.sch().map_or(false, |ch| p.w.nodes[SERVER].conns.contains_key(&ch));
             if closed_at.is_none() && p.w.steps >= c.at_step && c.kind != Kind::None && applicable_now {
@@ -357,6 +372,49 @@ fn run_case(base: Instant, c: &Case, dump: bool) -> Out {
                     if let crate::sim::Routed::Conn(ch) = r {
                         v.push(("stale-cid-routes".into(), format!("a datagram of the drained connection was routed to connection handle {}", ch.0)));
                         break;
+                    }
+                }
+                // ... and neither may anything that looks like a stateless reset for it: every reset
+                // token either side ever issued (one per connection ID on the wire, plus the one in
+                // the server's transport parameters), presented from every address the peer ever used
+                let mut addrs: [std::collections::BTreeSet<std::net::SocketAddr>; 2] = Default::default();
+                let mut cids: [Vec<Vec<u8>>; 2] = Default::default();
+                for r in &p.w.recs {
+                    if let Rec::Emit { node, data, src, dst, ch: Some(_), .. } = r {
+                        if *node > 1 {
+                            continue;
+                        }
+                        addrs[*node].insert(*src);
+                        let peer_cl = crate::ledger::cid_len_of(&p.w, *dst);
+                        for (pk, frames) in crate::ledger::decode(data, peer_cl) {
+                            if pk.ty != crate::wire::PType::Short && !pk.scid.is_empty() && !cids[*node].contains(&pk.scid) {
+                                cids[*node].push(pk.scid.clone());
+                            }
+                            for f in frames {
+                                if let crate::wire::WFrame::NewConnectionId { cid, .. } = f {
+                                    if !cids[*node].contains(&cid) {
+                                        cids[*node].push(cid);
+                                    }
+                                }
+                            }
+                        }
+                    }
+                }
+                'outer: for target in [SERVER, CLIENT] {
+                    let peer = 1 - target;
+                    let seed = p.w.nodes[peer].seed;
+                    let dst = p.w.nodes[target].addr;
+                    for src in addrs[peer].clone() {
+                        for cid in cids[peer].clone() {
+                            let tok = crate::sim::reset_token_for(seed, &cid);
+                            let mut d: Vec<u8> = (0..30).map(|i| 0x40 | ((i * 7) as u8 & 0x3f)).collect();
+                            d.extend_from_slice(&tok);
+                            let r = p.w.deliver(crate::sim::Flight { at: p.w.t, seq: 0, idx: u64::MAX, src, dst, ecn: None, data: d, injected: true });
+                            if let crate::sim::Routed::Conn(ch) = r {
+                                v.push(("stale-reset-token-routes".into(), format!("after both connections drained, a stateless reset for connection ID {cid:02x?} presented to node{target} from {src} was routed to connection handle {}", ch.0)));
+                                break 'outer;
+                            }
+                        }
                     }
                 }
                 p.w.nodes[SERVER].policy = pol;
